@@ -204,7 +204,40 @@ impl<'c, KD: Kind, const N: usize> MapEng<'c, KD, N> {
         self.after(P15, P15);
     }
 
+    /// Request arrays longer than 32 / 64 keys (only for the large capacities): J distinct keys
+    /// in ascending or descending order from a generated start, optionally with one repeat.
+    fn op_disjoint_big(&mut self, w: usize, a: u8, b: u8, c: u8, unchecked: bool) {
+        let u = self.univ as usize;
+        let form = a & 1;
+        let start = b as usize % u;
+        let down = a & 4 != 0;
+        let key_at = |i: usize| (if down { start + u - (i % u) } else { start + i } % u) as u8;
+        self.cx.bump(S::disjoint_calls);
+        self.cx.bump(S::disjoint_big);
+        let f = if N >= 65 && a & 2 != 0 && u >= 65 {
+            let mut keys: [u8; 65] = core::array::from_fn(key_at);
+            if c & 0x20 != 0 {
+                keys[64 - (c as usize & 7)] = keys[(c as usize >> 3) & 3];
+            }
+            self.disjoint_j::<65>(w, keys, form, unchecked)
+        } else if u >= 33 {
+            let mut keys: [u8; 33] = core::array::from_fn(key_at);
+            if c & 0x20 != 0 {
+                keys[32 - (c as usize & 7)] = keys[(c as usize >> 3) & 3];
+            }
+            self.disjoint_j::<33>(w, keys, form, unchecked)
+        } else {
+            false
+        };
+        self.note_fault(f, false);
+        let owner = if unchecked { P13.and(Prop::C18) } else { P13 };
+        self.after(owner, P12);
+    }
+
     pub fn op_disjoint(&mut self, w: usize, a: u8, b: u8, c: u8, unchecked: bool) {
+        if N >= 33 && c & 0x40 != 0 {
+            return self.op_disjoint_big(w, a, b, c, unchecked);
+        }
         let j = scale(a, 6);
         let form = a & 1;
         let u = self.univ as u32;
@@ -594,6 +627,18 @@ impl<'c, KD: Kind, const N: usize> MapEng<'c, KD, N> {
                 _ => Self::lib(cx, || !(x.c.m != y.c.m)),
             };
             cx.bump(S::eq_calls);
+            if want && !x.model.is_empty() && x.order != y.order {
+                cx.bump(S::eq_equal_diff_order);
+            }
+            if !want {
+                let differing = x.model.iter().filter(|(k, e)| y.model.get(k).map(|f| f.val) != Some(e.val)).count() + y.model.keys().filter(|k| !x.model.contains_key(k)).count();
+                if differing <= 2 {
+                    cx.bump(S::eq_near_miss);
+                }
+            }
+            if want && x.model.len() > 32 {
+                cx.bump(S::eq_equal_big);
+            }
             cx.log(|| format!("eq form {sub} -> {r:?} (model {want})"));
             match r {
                 Ok(got) => {
